@@ -62,4 +62,41 @@ package ast_api_java
 //@ ensures isSpringRestController && old(hasEnterClass) && HandlerMapping(ctx) && Child(ctx, "elementValue") == nil && Pairs(ctx) != nil && NPairs(ctx) == 1 && PairKey(ctx, 0) == "value" &&
 //@    IsLit(PairVal(ctx, 0)) && !Contains(old(baseApiUrl), "\"") ==> currentRestAPI.Uri == old(baseApiUrl) + Lit(PairVal(ctx, 0))
 //@ loop 1 invariant currentRestAPI.Uri == UriAfter(ctx, baseApiUrl, uriRemoveQuote, #i)
-//@ loop 1 invariant hasEnterRestController && isSpringRestController && baseApiUrl == old(baseApiUrl) && restAPIs == old(restAPIs)
+//@ loop 1 invariant hasEnterRestController && isSpringRestController && restAPIs == old(restAPIs) && currentRestAPI.HttpMethod == VerbOf(annotationName)
+//@ loop 2 invariant currentRestAPI.Uri == UriAfter(ctx, baseApiUrl, uriRemoveQuote, #i)
+//@ loop 2 invariant hasEnterRestController && isSpringRestController && restAPIs == old(restAPIs)
+
+// ---- the handler method: the pending entry is completed and listed exactly once
+
+//@ spec ParamList(m Node) Node := Child(Child(m, "formalParameters"), "formalParameterList")
+//@ spec Param(m Node, j int) Node := ChildN(ParamList(m), "formalParameter", j)
+//@ spec NParams(m Node) int := ParamList(m) == nil ? 0 : Count(ParamList(m), "formalParameter")
+//@ spec ModAnn(p Node, k int) Node := Kid(ChildN(p, "variableModifier", k), 0)
+//@ spec IsRB(p Node, k int) bool := IsKind(ModAnn(p, k), "AnnotationContext") && Child(ModAnn(p, k), "qualifiedName") != nil && GetText(Child(ModAnn(p, k), "qualifiedName")) == "RequestBody"
+//@ spec rec HasRB(p Node, n int) bool := n <= 0 ? false : (HasRB(p, n - 1) || IsRB(p, n - 1))
+//@ spec ParamHasRB(p Node) bool := HasRB(p, Count(p, "variableModifier"))
+// the request body type: the type of the (last) parameter annotated @RequestBody, whatever follows it
+//@ spec rec BodyOf(m Node, b0 string, n int) string := n <= 0 ? b0 : (ParamHasRB(Param(m, n - 1)) ? GetText(Child(Param(m, n - 1), "typeType")) : BodyOf(m, b0, n - 1))
+
+//@ func buildRestApiWithParameters
+//@ inline
+//@ loop 1 invariant requestBodyClass == BodyOf(ctx, old(requestBodyClass), #i) && localVars != nil
+//@ loop 1 invariant restAPIs == old(restAPIs) && currentRestAPI == old(currentRestAPI) && hasEnterRestController
+//@ loop 2 invariant hasRequestBody == HasRB(paramContext, #i)
+//@ loop 2 invariant requestBodyClass == BodyOf(ctx, old(requestBodyClass), #i1) && localVars != nil
+//@ loop 2 invariant restAPIs == old(restAPIs) && currentRestAPI == old(currentRestAPI) && hasEnterRestController
+
+//@ method JavaAPIListener.EnterMethodDeclaration
+//@ modifies restAPIs
+//@ modifies currentRestAPI
+//@ modifies hasEnterRestController
+//@ modifies requestBodyClass
+//@ modifies localVars
+// a method without a pending mapping contributes nothing
+//@ ensures !old(hasEnterRestController) && currentImplements == "" ==> restAPIs == old(restAPIs)
+// a handler: exactly one entry, carrying the mapping's URI and verb, the handler's package, class and name, and the @RequestBody type
+//@ ensures old(hasEnterRestController) && currentImplements == "" ==> len(restAPIs) == old(len(restAPIs)) + 1 && Extends(restAPIs, old(restAPIs), 1) && !hasEnterRestController
+//@ ensures old(hasEnterRestController) && currentImplements == "" ==> restAPIs[len(restAPIs) - 1].Uri == old(currentRestAPI.Uri) && restAPIs[len(restAPIs) - 1].HttpMethod == old(currentRestAPI.HttpMethod)
+//@ ensures old(hasEnterRestController) && currentImplements == "" ==> restAPIs[len(restAPIs) - 1].MethodName == GetText(Child(ctx, "identifier")) &&
+//@    restAPIs[len(restAPIs) - 1].PackageName == currentPkg && restAPIs[len(restAPIs) - 1].ClassName == currentClz
+//@ ensures old(hasEnterRestController) && currentImplements == "" ==> restAPIs[len(restAPIs) - 1].RequestBodyClass == BodyOf(ctx, old(requestBodyClass), NParams(ctx))
